@@ -192,12 +192,24 @@ pub fn c12(rep: &mut Report) {
     rep.set("groups", json!(groups.len()));
     rep.set("evaluations", json!(rep.agg.get("schedules") + sweep));
     rep.set("distinct_nontrivial", json!(rep.agg.distinct_count("schedule_outcomes") + rep.agg.distinct_count("sweep_archives")));
-    rep.set("rule", json!("schedule legs: deviation-bounded DFS over blocking-pool completion orders of the real compress_cmd / create_archive (each schedule = one execution of the real code, archive bytes observed after runtime shutdown); delivery sweep: buffered-chunks in {1,2,3,8,64} x input read sizes {whole,1,3,7} on a real multi-thread runtime; oracle: exactly one distinct archive per (writer, source, options); non-trivial = distinct (leg, archive) outcomes"));
+    rep.set("rule", json!("schedule legs: deviation-bounded DFS over blocking-pool completion orders of the real compress_cmd / create_archive (each schedule = one execution of the real code, archive bytes observed after runtime shutdown); delivery sweep: buffered-chunks in {1,2,3,8,64} x input read sizes {whole,1,3,7} (the output accepting whole buffers, 5 or 1 bytes per write call, committing each write only with the next one or a flush) on a real multi-thread runtime; oracle: exactly one distinct archive per (writer, source, options); non-trivial = distinct (leg, archive) outcomes"));
     finish_sched(rep);
 }
 
 /// Library compress with the input delivered `frag` bytes per read (0 = unfragmented).
 pub async fn lib_compress_fragmented(cfg: &Cfg, comp: &Comp, hash_len: usize, buffers: usize, src: &[u8], frag: usize) -> Result<Vec<u8>, String> {
+    // the sink varies with the input fragmentation: whole writes, or at most 5 / 1 bytes per write call
+    lib_compress_sink(cfg, comp, hash_len, buffers, src, frag, match frag {
+        1 => 5,
+        3 => 1,
+        _ => 0,
+    })
+    .await
+}
+
+/// `sink_max` > 0: the output accepts at most that many bytes per write call (a socket, a pipe, a
+/// throttled writer); 0: whole buffers.
+pub async fn lib_compress_sink(cfg: &Cfg, comp: &Comp, hash_len: usize, buffers: usize, src: &[u8], frag: usize, sink_max: usize) -> Result<Vec<u8>, String> {
     struct Frag<'a> {
         data: &'a [u8],
         pos: usize,
@@ -233,13 +245,15 @@ pub async fn lib_compress_fragmented(cfg: &Cfg, comp: &Comp, hash_len: usize, bu
     struct Deferred {
         committed: Vec<u8>,
         pending: Vec<u8>,
+        max: usize,
     }
     impl tokio::io::AsyncWrite for Deferred {
         fn poll_write(mut self: std::pin::Pin<&mut Self>, _cx: &mut std::task::Context<'_>, data: &[u8]) -> std::task::Poll<std::io::Result<usize>> {
             let p = std::mem::take(&mut self.pending);
             self.committed.extend_from_slice(&p);
-            self.pending = data.to_vec();
-            std::task::Poll::Ready(Ok(data.len()))
+            let n = if self.max > 0 { data.len().min(self.max) } else { data.len() };
+            self.pending = data[..n].to_vec();
+            std::task::Poll::Ready(Ok(n))
         }
         fn poll_flush(mut self: std::pin::Pin<&mut Self>, _cx: &mut std::task::Context<'_>) -> std::task::Poll<std::io::Result<()>> {
             let p = std::mem::take(&mut self.pending);
@@ -250,7 +264,7 @@ pub async fn lib_compress_fragmented(cfg: &Cfg, comp: &Comp, hash_len: usize, bu
             self.poll_flush(cx)
         }
     }
-    let mut out = Deferred { committed: vec![], pending: vec![] };
+    let mut out = Deferred { committed: vec![], pending: vec![], max: sink_max };
     bitar::api::compress::create_archive(Frag { data: src, pos: 0, n: frag, pend: false }, &mut out, &opts).await.map_err(|e| format!("{e}"))?;
     Ok(out.committed)
 }
@@ -406,6 +420,28 @@ pub fn cli_roundtrip(rt: &tokio::runtime::Runtime, dir: &Path, case: &Case, agg:
                 let o = std::fs::read(&out).unwrap_or_default();
                 if o != case.source {
                     agg.viol("success-with-wrong-output", || detail(json!({"over_existing_longer_file": true, "output_len": o.len()})));
+                }
+            }
+        }
+    }
+    // ... and as an update in place (--seed-output) of a copy whose first and last bytes differ: everything but
+    // the first and last chunk is already where it belongs
+    if !case.source.is_empty() {
+        let mut prior = case.source.clone();
+        prior[0] ^= 0x21;
+        let l = prior.len() - 1;
+        prior[l] ^= 0x12;
+        std::fs::write(&out, &prior).unwrap();
+        let cargs: Vec<String> = vec!["bita".into(), "clone".into(), "--buffered-chunks".into(), case.buffers.to_string(), "--seed-output".into(), arc.to_str().unwrap().into(), out.to_str().unwrap().into()];
+        if let Ok((cli::CommandOpts::Clone(copts), _)) = cli::parse_opts(cargs) {
+            match catch(|| rt.block_on(crate::clone_cmd::clone_cmd(copts))) {
+                Err(p) => agg.viol(&format!("panic@{}", panic_site(&p)), || detail(json!(p))),
+                Ok(Err(e)) => agg.viol("valid-clone-failed", || detail(json!(format!("in place over a copy with two changed bytes: {e:#}")))),
+                Ok(Ok(())) => {
+                    let o = std::fs::read(&out).unwrap_or_default();
+                    if o != case.source {
+                        agg.viol("success-with-wrong-output", || detail(json!({"in_place_over_copy_with_two_changed_bytes": true, "output_len": o.len()})));
+                    }
                 }
             }
         }
